@@ -2,7 +2,6 @@
 import random
 
 META = {
-    "disabled": True,
     "level": "model_checking",
     "text": "TLC exhaustively checks a step-level model of bls.RecoverSignature/RecoverPublicKey over a prime field (every input "
             "slice of correct shares in every order mixed with nil, nil-value and negative-index entries; every polynomial) for "
